@@ -311,7 +311,7 @@ pub fn judge(job: &Job, spec: &SpecRun, obs: &Obs) -> Verdict {
     let prefix_ok = |upto: usize| got.len() >= upto.min(EV_CAP) && got[..upto.min(got.len())] == exp[..upto.min(exp.len()).min(got.len())];
     match job.cfg.mode {
         Mode::Exec | Mode::Unsafe { .. } => {
-            if !halted {
+            if !halted && !stopped {
                 return Verdict::Inconclusive("canonical run did not halt".into());
             }
             let same = obs.n_events == exp_total
@@ -346,7 +346,15 @@ pub fn judge(job: &Job, spec: &SpecRun, obs: &Obs) -> Verdict {
             } else {
                 // must be a prefix
                 let n = got.len();
-                let is_prefix = obs.n_events <= exp_total && n <= exp.len() && got[..] == exp[..n];
+                // the total is only known when the canonical run halts or the environment stops it
+                let total_known = halted || stopped;
+                let is_prefix = if total_known {
+                    obs.n_events <= exp_total && n <= exp.len() && got[..] == exp[..n]
+                } else {
+                    // canonical run diverges: only the recorded canonical prefix can be compared
+                    let m = n.min(exp.len());
+                    got[..m] == exp[..m]
+                };
                 if !is_prefix {
                     return Verdict::Violated(format!("finished=false and not a prefix: {}", describe_mismatch(&exp, got, obs.n_events)));
                 }
